@@ -915,10 +915,66 @@ Proof.
     exact (post_trans _ _ _ _ _ Hpost1 Hpost2).
 Qed.
 
+Lemma pm_nonempty_mut errtab :
+  (forall p bin last msgs, pm_q errtab bin last p = Some msgs -> Forall (fun m => m <> []) msgs) /\
+  (forall p bin cols r msgs, PInv cols r -> pm_r errtab bin cols r p = Some msgs ->
+     Forall (fun m => m <> []) msgs).
+Proof.
+  apply qrprog_ind.
+  - intros cols k IH bin last msgs Hp. cbn [pm_q] in Hp.
+    apply oapp_some in Hp. destruct Hp as (ms & Hr & ->).
+    apply Forall_app. split; [|exact (IH _ _ _ _ (PInv0 cols) Hr)].
+    apply Forall_app. split; [apply fin_msgs_ne|].
+    destruct cols; [constructor | apply coldefs_ne].
+  - intros rows id k IH bin last msgs Hp. cbn [pm_q] in Hp.
+    apply oapp_some in Hp. destruct Hp as (ms & Hr & ->).
+    apply Forall_app. split; [apply fin_msgs_ne | exact (IH _ _ _ Hr)].
+  - intros rows id bin last msgs Hp. cbn [pm_q] in Hp. injection Hp as <-.
+    apply Forall_app. split; [apply fin_msgs_ne|]. constructor; [apply ok_body_ne | constructor].
+  - intros code msg bin last msgs Hp. cbn [pm_q] in Hp.
+    destruct (err_msg_of errtab code msg) as [e|] eqn:Ee; [|discriminate]. injection Hp as <-.
+    apply Forall_app. split; [apply fin_msgs_ne|].
+    constructor; [exact (err_msg_of_ne _ _ _ _ Ee) | constructor].
+  - intros bin last msgs Hp. cbn [pm_q] in Hp. injection Hp as <-. apply fin_msgs_ne.
+  - intros bin last msgs Hp. cbn [pm_q] in Hp. injection Hp as <-. apply fin_msgs_ne.
+  - intros v e k IH bin cols r msgs HP Hp. cbn [pm_r] in Hp.
+    destruct (p_write_col bin cols r v) as [r1|] eqn:E; [|discriminate].
+    exact (IH _ _ _ _ (p_write_col_PInv _ _ _ _ _ HP E) Hp).
+  - intros e k IH bin cols r msgs HP Hp. cbn [pm_r] in Hp.
+    destruct (p_end_row bin cols r) as [[m r1]|] eqn:E; [|discriminate].
+    apply oapp_some in Hp. destruct Hp as (ms & Hr & ->).
+    destruct (p_end_row_spec _ _ _ _ _ HP E) as [Hm HP1].
+    apply Forall_app. split; [exact Hm | exact (IH _ _ _ _ HP1 Hr)].
+  - intros vs e k IH bin cols r msgs HP Hp. cbn [pm_r] in Hp.
+    destruct (p_write_row bin cols r vs) as [[m r1]|] eqn:E; [|discriminate].
+    apply oapp_some in Hp. destruct Hp as (ms & Hr & ->).
+    destruct (p_write_row_spec _ _ _ _ _ _ HP E) as [Hm HP1].
+    apply Forall_app. split; [exact Hm | exact (IH _ _ _ _ HP1 Hr)].
+  - intros bin cols r msgs HP Hp. cbn [pm_r] in Hp.
+    destruct (p_finish bin cols r) as [[m f]|] eqn:E; [|discriminate]. injection Hp as <-.
+    apply Forall_app. split; [exact (p_finish_spec _ _ _ _ _ HP E) | exact (fin_msgs_ne (Some f) false)].
+  - intros k IH bin cols r msgs HP Hp. cbn [pm_r] in Hp.
+    destruct (p_finish bin cols r) as [[m f]|] eqn:E; [|discriminate].
+    apply oapp_some in Hp. destruct Hp as (ms & Hr & ->).
+    apply Forall_app. split; [exact (p_finish_spec _ _ _ _ _ HP E) | exact (IH _ _ _ Hr)].
+  - intros code msg bin cols r msgs HP Hp. rewrite pm_r_finish_error in Hp.
+    destruct (p_finish bin cols r) as [[m f]|] eqn:E; [|discriminate].
+    destruct (err_msg_of errtab code msg) as [e|] eqn:Ee; [|discriminate]. injection Hp as <-.
+    apply Forall_app. split; [exact (p_finish_spec _ _ _ _ _ HP E)|].
+    constructor; [exact (err_msg_of_ne _ _ _ _ Ee) | constructor].
+  - intros bin cols r msgs HP Hp. cbn [pm_r] in Hp.
+    destruct (p_finish bin cols r) as [[m f]|] eqn:E; [|discriminate]. injection Hp as <-.
+    apply Forall_app. split; [exact (p_finish_spec _ _ _ _ _ HP E) | exact (fin_msgs_ne (Some f) false)].
+Qed.
+
+(* ====================================================================================== *)
+(* the theorems                                                                            *)
+(* ====================================================================================== *)
+
 (* every message a successful program sends is non-empty *)
 Lemma pm_q_nonempty errtab bin last p msgs :
   pm_q errtab bin last p = Some msgs -> Forall (fun m => m <> []) msgs.
-Admitted.
+Proof. apply (proj1 (pm_nonempty_mut errtab)). Qed.
 
 Theorem run_q_render errtab quiet q p msgs s :
   clean s ->
@@ -927,7 +983,11 @@ Theorem run_q_render errtab quiet q p msgs s :
     run_q errtab quiet q p s = (ROk tt, s') /\ clean s' /\
     sent s s' (frame_all_pkts (s_lim s) (s_seq s) msgs) /\
     s_seq s' = seq_after (s_lim s) (s_seq s) msgs.
-Admitted.
+Proof.
+  intros Hcl Hp.
+  destruct (proj1 (run_render_mut errtab quiet) p q s msgs Hcl Hp) as (s' & Hrun & Hc' & Hs & Hq).
+  exists s'. exact (conj Hrun (conj Hc' (conj Hs Hq))).
+Qed.
 
 (* the same for plain message lists (prepare replies, OK, ERR, field lists) *)
 Theorem send_all_render msgs s :
@@ -936,4 +996,12 @@ Theorem send_all_render msgs s :
     send_all msgs s = (ROk tt, s') /\ clean s' /\
     sent s s' (frame_all_pkts (s_lim s) (s_seq s) msgs) /\
     s_seq s' = seq_after (s_lim s) (s_seq s) msgs.
-Admitted.
+Proof.
+  intros Hcl Hall.
+  destruct (send_all_post msgs s Hcl Hall) as (s' & Hrun & Hc' & Hs & Hq).
+  exists s'. exact (conj Hrun (conj Hc' (conj Hs Hq))).
+Qed.
+
+Print Assumptions pm_q_nonempty.
+Print Assumptions run_q_render.
+Print Assumptions send_all_render.
